@@ -79,9 +79,10 @@ theorem C09_globals_reach_caller (s s' : RState) (k : Str) (v : Val) (hk : looku
 
 /-- the callee starts from a *copy*: the caller's variables are all visible, `__token` is unset, and the caller's frame
 (its cached values, saved lengths) is not the callee's -/
-theorem C09_macro_enter (body : Node) (s : RState) :
-    (macroEnter body s).env.own = s.env.own ∧ (macroEnter body s).x.token = none ∧
-    (macroEnter body s).env.topFrame.cache = [] ∧ (macroEnter body s).env.topFrame.domain = s.env.topFrame.domain := by
+theorem C09_macro_enter (tid : Nat) (body : Node) (s : RState) :
+    (macroEnter tid body s).env.own = s.env.own ∧ (macroEnter tid body s).x.token = none ∧
+    (macroEnter tid body s).env.topFrame.cache = [] ∧ (macroEnter tid body s).env.topFrame.domain = s.env.topFrame.domain ∧
+    (macroEnter tid body s).env.topFrame.tid = tid := by
   simp [macroEnter, Env.topFrame]
 
 /-- the slot resolution pops the *rightmost* filler of the deque: in an extend chain (`appendleft`) the outermost
